@@ -46,6 +46,7 @@ func hashStr(s string) uint64 {
 func c11Corpus(tier string) []gram.Seed {
 	var out []gram.Seed
 	out = append(out, gram.Seeds()...)
+	out = append(out, exampleSeeds(tier)...)
 	for i, g := range gram.S2() {
 		if tier == "thorough" || i%4 == 0 || len(g.NonTerminals()) >= 3 {
 			out = append(out, gram.Seed{Name: fmt.Sprint("S2-", i), Text: g.Text()})
